@@ -12,6 +12,7 @@ mod c19;
 mod c10;
 mod c14;
 mod c13;
+mod c07;
 
 use common::Case;
 use std::fs;
@@ -27,6 +28,7 @@ fn header(prop: &str) -> &'static str {
         "C10" | "C10rx" => "From TSG Require Import Model.ScanOps.\n",
         "C14" => "From TSG Require Import Model.C14Obs.\n",
         "C13" | "C13D" => "From TSG Require Import Model.Stdlib.\n",
+        "C07" | "C05p" => "From TSG Require Import Model.ParserObs.\n",
         _ => "",
     }
 }
@@ -75,6 +77,8 @@ fn main() {
                 "C10rx" => c10::gen_rx_stream(&mut rng, n),
                 "C14" => c14::gen(&mut rng, n),
                 "C13" | "C13D" => c13::gen(&mut rng, n),
+                "C07" => c07::gen(&mut rng, n),
+                "C05p" => c07::gen_malformed(&mut rng, n),
                 _ => { eprintln!("unknown property {}", prop); std::process::exit(2) }
             };
             write_cases(&prop, &cases, shards, &out);
@@ -93,6 +97,7 @@ fn main() {
                 "C10rx" => c10::replay_rx(&j["case"]),
                 "C14" => c14::replay(&j["case"]),
                 "C13" | "C13D" => c13::replay(&j["case"]),
+                "C07" | "C05p" => c07::replay(&j["case"]),
                 _ => { eprintln!("unknown property {}", prop); std::process::exit(2) }
             };
             write_cases(&prop, &[case], 1, &out);
